@@ -4,11 +4,11 @@
 (* well-formed, self-describing codestream whose header declares exactly   *)
 (* what the encoder was asked for.  Event "frame": api, cfg, stream, err.  *)
 (***************************************************************************)
-EXTENDS Markers, Json
+EXTENDS PacketHeader, Json
 CONSTANT TraceFile
 Tr == ndJsonDeserialize(TraceFile)
-VARIABLES l, nacc
-tvars == <<l, nacc>>
+VARIABLES l, nacc, pk
+tvars == <<l, nacc, pk>>
 E == Tr[l]
 C == E.cfg
 
@@ -39,18 +39,35 @@ J2kReason(h) ==
   ELSE IF h.cap # C.ht THEN "CAP marker presence does not match HT"
   ELSE "ok"
 
+\* The strict packet reader (PacketHeader) is used to NAME one defect the property lists - a packet header whose last
+\* byte is 0xFF must be followed by a stuffed byte (B.10.1) -: the stream fails the strict reading and passes the reading
+\* of the defective writer in which some packet header does end in 0xFF, on a stream whose packet structure is plain
+\* (one tile, default precincts, no empty sub-band).  Any other disagreement between the reader and the library about the packet structure
+\* (user-defined precincts, tile-local geometry, empty sub-bands: DESIGN.md 8) is counted, not judged.
+PkClass(s) ==
+  LET a == ReadPackets(s, FALSE) IN
+  IF a.ok THEN (IF a.why = "skip" THEN "skipped" ELSE "parsed")
+  ELSE IF PlainStructure(s) /\ (LET b == ReadPackets(s, TRUE) IN b.ok /\ b.nff > 0) THEN "stuffing" ELSE "unparsed"
 Reason ==
   IF E.err # "" THEN "ok"                                  \* refusals are C17's business, not C16's
-  ELSE IF C.api = "j2k" THEN (LET h == WalkJ2k(E.stream) IN IF ~h.ok THEN "malformed: " \o h.why ELSE J2kReason(h))
+  ELSE IF C.api = "j2k" THEN (LET h == WalkJ2k(E.stream) IN IF ~h.ok THEN "malformed: " \o h.why
+                              ELSE LET r == J2kReason(h) IN IF r # "ok" THEN r ELSE "pk:" \o PkClass(E.stream))
   ELSE LET h == WalkJpeg(E.stream) IN IF ~h.ok THEN "malformed: " \o h.why ELSE JpegReason(h)
 
-Init == l = 1 /\ nacc = 0
+Init == l = 1 /\ nacc = 0 /\ pk = [parsed |-> 0, skipped |-> 0, unparsed |-> 0]
 Step ==
   /\ l <= Len(Tr) /\ l' = l + 1
-  /\ IF E.ev # "frame" THEN UNCHANGED nacc
+  /\ IF E.ev # "frame" THEN UNCHANGED <<nacc, pk>>
      ELSE LET r == Reason IN
-          IF r = "ok" THEN nacc' = nacc + (IF E.err = "" THEN 1 ELSE 0)
-          ELSE PrintT("@@REJECT|" \o ToString(E.scn) \o "|" \o ToString(E.k) \o "|C16/wellformed/" \o C.api \o "/" \o r \o "|" \o ToString(C)) /\ UNCHANGED nacc
-Finish == l = Len(Tr) + 1 /\ PrintT("@@ACCEPT|" \o ToString(nacc)) /\ PrintT("@@DONE|" \o ToString(Len(Tr))) /\ l' = l + 1 /\ UNCHANGED nacc
+          IF r = "ok" THEN nacc' = nacc + (IF E.err = "" THEN 1 ELSE 0) /\ UNCHANGED pk
+          ELSE IF r \in {"pk:parsed", "pk:skipped", "pk:unparsed"}
+          THEN /\ nacc' = nacc + 1
+               /\ pk' = [pk EXCEPT !.parsed = @ + (IF r = "pk:parsed" THEN 1 ELSE 0), !.skipped = @ + (IF r = "pk:skipped" THEN 1 ELSE 0),
+                                   !.unparsed = @ + (IF r = "pk:unparsed" THEN 1 ELSE 0)]
+          ELSE LET why == IF r = "pk:stuffing" THEN "packet header ending in 0xFF is not followed by the stuffed byte" ELSE r IN
+               PrintT("@@REJECT|" \o ToString(E.scn) \o "|" \o ToString(E.k) \o "|C16/wellformed/" \o C.api \o "/" \o why \o "|" \o ToString(C)) /\ UNCHANGED <<nacc, pk>>
+Finish == /\ l = Len(Tr) + 1 /\ PrintT("@@ACCEPT|" \o ToString(nacc)) /\ PrintT("@@DONE|" \o ToString(Len(Tr)))
+          /\ PrintT("@@INFO|pk parsed=" \o ToString(pk.parsed) \o " skipped=" \o ToString(pk.skipped) \o " unparsed=" \o ToString(pk.unparsed))
+          /\ l' = l + 1 /\ UNCHANGED <<nacc, pk>>
 TraceSpec == Init /\ [][Step \/ Finish]_tvars
 =============================================================================
